@@ -1364,7 +1364,7 @@ def gen_c10_spec(rng: random.Random) -> Dict[str, Any]:
             fail_backend.append(tok)
     kick_fail = sorted(rng.sample(range(n), rng.choice([0, 0, 1, min(2, n)])))
     spec: Dict[str, Any] = {"cfg": {"A": rng.choice([1, 2, 4, None]), "P": rng.choice([0, 1]), "propagate": rng.random() < 0.7},
-                            "mw_reg": rng.choice(["add", "add", "with", "split_with", "add_then_with"]),
+                            "mw_eq": rng.random() < 0.25, "mw_reg": rng.choice(["add", "add", "with", "split_with", "add_then_with"]),
                             "mws": mws, "client_sends": sends, "loopback": True, "kick_fail": kick_fail,
                             "kick_exc": [rng.choice(["BackendDown", "ConnectionError", "BrokerError", "ResultSetError",
                                                      "TaskiqResultTimeoutError", "UnknownTaskError", "TaskiqError"])
